@@ -89,6 +89,14 @@ func c15model(stmts []c15stmt, ex c15exit) (src []string, out []string, oc c15ou
 			}
 		case "deferF":
 			src = append(src, fmt.Sprintf(`defer "D%d".p if false`, s.id))
+		case "deferTv":
+			// guard that is truthy without being the `true` object
+			src = append(src, fmt.Sprintf(`defer "D%d".p if %s`, s.id, []string{"1", `"s"`, "[0]", "{a: 1}", "0.5"}[s.id%5]))
+			if !exited {
+				registered = append(registered, reg{text: fmt.Sprintf("D%d", s.id)})
+			}
+		case "deferFv":
+			src = append(src, fmt.Sprintf(`defer "D%d".p if %s`, s.id, []string{"0", `""`, "[]", "nil", "{}"}[s.id%5]))
 		case "deferRaise":
 			src = append(src, fmt.Sprintf(`defer boom(%d)`, s.id))
 			if !exited {
@@ -148,6 +156,9 @@ var c15contexts = []c15ctx{
 	{name: "method", wrap: func(b string) string { return "o := {m: m{||\n" + b + "\n}}\no.m()" }},
 	{name: "literal-call", wrap: func(b string) string { return "1.{|x|\n" + b + "\n}" }},
 	{name: "list-chain-callee", wrap: func(b string) string { return "[1]@{|x|\n" + b + "\n}" }, val: func(v string) string { return "[" + v + "]" }},
+	{name: "iterator-step", wrap: func(b string) string { return "it := <{|i|\n" + b + "\n}>.new(1)\nit.next" }},
+	{name: "var-call", wrap: func(b string) string { return "f := {|x|\n" + b + "\n}\n1.^f" }},
+	{name: "reduce-chain-callee", wrap: func(b string) string { return "[1]$(0){|acc, x|\n" + b + "\n}" }},
 	{name: "two-level", wrap: func(b string) string {
 		return "f := {||\n" + b + "\n}\ng := {|| \"O\".p; defer \"OD\".p; r := f(); \"O2\".p; r}\ng()"
 	}, pre: []string{"O"}},
@@ -176,7 +187,7 @@ func init() {
 
 func runC15(w *fw.W) {
 	var ip *interp.Interp
-	kinds := []string{"mark", "defer", "deferT", "deferF", "deferRaise", "call"}
+	kinds := []string{"mark", "defer", "deferT", "deferF", "deferTv", "deferFv", "deferRaise", "call"}
 	exits := []string{"none", "return", "returnIfTrue", "returnIfFalse", "raise", "hostErr", "nestedFail"}
 	maxN := w.Pick(3, 4)
 	// enumerate layouts; one case per (n, first statement kind, context)
